@@ -40,7 +40,9 @@ def mutate(r, src, dst, diagram, nops):
             did, elems = class_diagram_elements(con, diagram)
             classes = [e for e in elems if e[2] == "Class"]
             packages = [e for e in elems if e[2] == "Package"]
-            op = r.choice(["rename-class", "rename-class", "remove-class", "rename-package", "unpackage-class", "remove-package"])
+            # (removing only the package *shape* is not offered: the classes would still be owned by the package in the
+            # model while the diagram no longer says so - types are then qualified by ownership, namespaces by the diagram)
+            op = r.choice(["rename-class", "rename-class", "remove-class", "rename-package", "unpackage-class", "unpackage-class"])
             if op == "rename-class" and classes:
                 e = r.choice(classes)
                 prefix = re.match(r"[A-Za-z]?", e[3]).group(0) if e[3][:1] in "CIEs" else "C"
